@@ -167,16 +167,23 @@ def kDom (g : MGraph) (s : Nat) : List Nat := (s :: g.arcs.map (·.2.1)).eraseDu
 
 def kInit (s k : Nat) (dom : List Nat) : KTable := dom.map fun v => (v, kSmallest k (if v = s then [0] else []))
 
-/-- the table of the `k` smallest walk costs from `s` (`none`: no fixed point within the fuel) -/
-def kWalks (g : MGraph) (s k : Nat) : Option KTable :=
+/-- the table of the `k` smallest walk costs from `s`, iterated at most `fuel` times (`none`: no fixed
+point within the fuel).  The iteration stops at the FIRST fixed point, so a larger fuel never changes
+an answer `some T`; `Proofs/C10W4Oracle.lean` shows that `kspFuel v k + 1` always suffices. -/
+def kWalksF (fuel : Nat) (g : MGraph) (s k : Nat) : Option KTable :=
   let dom := kDom g s
-  kIter g s k dom (k * (g.nodes.length + 2) + 8) (kInit s k dom)
+  kIter g s k dom fuel (kInit s k dom)
+
+/-- the default fuel (a function of the abstract graph only) -/
+def kWalksFuel (g : MGraph) (k : Nat) : Nat := k * (g.nodes.length + 2) + 8
+
+def kWalks (g : MGraph) (s k : Nat) : Option KTable := kWalksF (kWalksFuel g k) g s k
 
 /-- `k ≥ 1`.  Every entry is the k-th smallest walk cost of its node; without goal exactly the nodes
 with at least `k` walks have an entry, with goal the goal has an entry iff it has `k` walks;
 `k = 1` without goal must be an accepted distance certificate (coincides with dijkstra). -/
-def okKsp (g : MGraph) (s : Nat) (goal : Option Nat) (k : Nat) (m : List (Nat × Int)) : Bool :=
-  match kWalks g s k with
+def okKspF (fuel : Nat) (g : MGraph) (s : Nat) (goal : Option Nat) (k : Nat) (m : List (Nat × Int)) : Bool :=
+  match kWalksF fuel g s k with
   | none => false
   | some T =>
     decide (1 ≤ k) &&
@@ -186,6 +193,10 @@ def okKsp (g : MGraph) (s : Nat) (goal : Option Nat) (k : Nat) (m : List (Nat ×
      | none => T.all fun vr => if k ≤ vr.2.length then (labelOf m vr.1).isSome else true
      | some t => ((kRow T t)[k - 1]?).isSome == (labelOf m t).isSome) &&
     (if k = 1 ∧ goal = none then checkDist g s m else true)
+
+/-- the judge with the default fuel of the oracle -/
+def okKsp (g : MGraph) (s : Nat) (goal : Option Nat) (k : Nat) (m : List (Nat × Int)) : Bool :=
+  okKspF (kWalksFuel g k) g s goal k m
 
 /-! ### MinScored as a specification: reverse of the numeric order, NaN last -/
 
